@@ -6,7 +6,10 @@ package mailbox
 // is never released - and neither side ends up with session keys.
 
 import (
+	"bytes"
+	"context"
 	"fmt"
+	"io"
 	"time"
 
 	"github.com/btcsuite/btcd/btcec/v2"
@@ -24,6 +27,11 @@ func init() {
 		Prop: "C03", Name: "kk-mismatch", Enumerated: true, Count: fixed(len(c03Shapes) * 3),
 		Run: c03KK, MaxOps: 1 << 20, Horizon: time.Hour,
 		Doc: "KK handshake with each key-mismatch shape (initiator stored a wrong responder key / responder stored a wrong initiator key / both / initiator presents another static key) / a responder with a paired key on file that is capped below version 2 and a stranger who knows the old passphrase) x auth payload sizes",
+	})
+	simrt.Register(&simrt.Scenario{
+		Prop: "C03", Name: "kk-scripted-impostor", Enumerated: true, Count: fixed(6),
+		Run: c03ScriptedImpostor, MaxOps: 1 << 20, Horizon: time.Hour,
+		Doc: "a genuine initiator that stored the responder's key at pairing time (KK) against a scripted responder that knows only the two static PUBLIC keys: it cannot verify act 1, skips that check, keeps its transcript in step and answers with an act 2 built by the package's own message writer (auth payload 0 / 64 / 4096 bytes x its DH results from an unrelated private key or all-zero): the initiator must reject act 2",
 	})
 	simrt.Register(&simrt.Scenario{
 		Prop: "C03", Name: "concurrent-sessions", Count: tiered(1500, 240000),
@@ -177,6 +185,99 @@ func c03KK(rc *simrt.RunCtx) {
 	c03Judge(rc, "KK "+c03Shapes[shape], "kk/"+c03Shapes[shape], sp, cli, srv, ca, cb)
 	rc.Progress()
 	rc.Fault("kk-" + c03Shapes[shape])
+}
+
+// zeroECDH claims a public key and answers every Diffie-Hellman with zeros.
+type zeroECDH struct{ pub *btcec.PublicKey }
+
+func (z *zeroECDH) PubKey() *btcec.PublicKey                { return z.pub }
+func (z *zeroECDH) ECDH(*btcec.PublicKey) ([32]byte, error) { return [32]byte{}, nil }
+
+func c03ScriptedImpostor(rc *simrt.RunCtx) {
+	size := []int{0, 64, 4096}[rc.Idx()%3]
+	zero := rc.Idx()/3 == 1
+	pr := newPrng(rc.Seed())
+	installEphemeralGen(pr)
+	ck, sk := pr.ecdh(), pr.ecdh()
+	auth := marker(rc.Seed(), size)
+	var gotKeys, gotAuth int
+	cdata := NewConnData(ck, sk.PubKey(), nil, nil,
+		func(*btcec.PublicKey) error { gotKeys++; return nil },
+		func([]byte) error { gotAuth++; return nil })
+	ccreds := NewNoiseGrpcConn(cdata)
+	var fake keychain.SingleKeyECDH = &forgedECDH{pub: sk.PubKey(), priv: pr.ecdh()}
+	if zero {
+		fake = &zeroECDH{pub: sk.PubKey()}
+	}
+	impostor, err := NewBrontideMachine(&BrontideMachineConfig{
+		Initiator: false, HandshakePattern: KKPattern,
+		MinHandshakeVersion: MinHandshakeVersion, MaxHandshakeVersion: MaxHandshakeVersion,
+		ConnData: NewConnData(fake, ck.PubKey(), nil, auth, nil, nil),
+	})
+	if err != nil {
+		rc.HarnessError("impostor machine: %v", err)
+		return
+	}
+	ca, cb := newDuplex()
+	impDone := make(chan error, 1)
+	go func() {
+		impDone <- func() error {
+			// act 1: version byte, tokens, MAC over the empty payload - which
+			// the impostor cannot check; it only keeps the transcript in step
+			var version [1]byte
+			if _, err := io.ReadFull(cb, version[:]); err != nil {
+				return err
+			}
+			if err := impostor.readTokens(cb, KKPattern.Pattern[0].Tokens); err != nil {
+				return err
+			}
+			var mac [macSize]byte
+			if _, err := io.ReadFull(cb, mac[:]); err != nil {
+				return err
+			}
+			impostor.mixHash(mac[:])
+			var act2 bytes.Buffer
+			if err := impostor.writeMsgPattern(&act2, KKPattern.Pattern[1]); err != nil {
+				return err
+			}
+			cb.Write(act2.Bytes())
+			return nil
+		}()
+	}()
+	cliDone := make(chan error, 1)
+	go func() {
+		_, _, err := ccreds.ClientHandshake(context.Background(), "", ca)
+		cliDone <- err
+	}()
+	var cliErr error
+	select {
+	case cliErr = <-cliDone:
+	case <-time.After(10 * time.Minute):
+		rc.Violate("c03.completed", "kk/scripted-impostor-responder/initiator-hangs", "the initiator neither failed nor completed within 10 virtual minutes")
+		return
+	}
+	select {
+	case err := <-impDone:
+		if err != nil {
+			rc.HarnessError("the impostor could not run its script: %v", err)
+			return
+		}
+	case <-time.After(time.Minute):
+	}
+	what := fmt.Sprintf("KK initiator against a scripted responder that holds only public keys (auth %d B, zero DH %v)", size, zero)
+	rc.Sample("%s: initiator %s", what, describeErr(cliErr))
+	switch {
+	case cliErr == nil:
+		rc.Violate("c03.completed", "kk/scripted-impostor-responder/initiator", "%s: the initiator completed the handshake", what)
+	case splitDone(ccreds.noise):
+		rc.Violate("c03.session-keys", "kk/scripted-impostor-responder", "%s: the initiator holds session keys after a failed handshake", what)
+	case gotKeys > 0 || gotAuth > 0 || len(cdata.AuthData()) != 0:
+		rc.Violate("c03.published", "kk/scripted-impostor-responder", "%s: the initiator published what the impostor sent (key callbacks %d, auth callbacks %d, stored auth %d B)", what, gotKeys, gotAuth, len(cdata.AuthData()))
+	default:
+		rc.Probe("c03.mismatch-rejected")
+	}
+	rc.Progress()
+	rc.Fault("kk-scripted-impostor-responder")
 }
 
 func c03Random(rc *simrt.RunCtx) {
